@@ -30,8 +30,10 @@ func (prop) Assumptions() []string {
 	return []string{"an empty expression list is treated like an absent one", "a missing or non-string category/service is matched as the empty string", "no duplicate channel names within one filter", "heartbeat and other unstamped events are ignored"}
 }
 
-var alphabet = []string{"ssh", "^ssh$", "ssh|ftp", "^f", "tp$", ".*", "^$", "x"}
-var values = []string{"ssh", "ftp", "sftp", "x", "", "sshd", "telnet"}
+// expressions whose meaning must not depend on their neighbours in the list: plain, anchored, alternations, and
+// expressions that set an inline flag for themselves (case-insensitive, dot matches newline)
+var alphabet = []string{"ssh", "^ssh$", "ssh|ftp", "^f", "tp$", ".*", "^$", "x", "(?i)ssh", "(?i)^f", "telnet", "(?s)s.h", "[s]sh$", "s{2}h"}
+var values = []string{"ssh", "ftp", "sftp", "x", "", "sshd", "telnet", "TELNET", "SSH", "Ftp", "s\nh"}
 
 type filter struct {
 	Channels   []string `json:"channels"`
